@@ -136,8 +136,11 @@ violations on the unchanged code. What they found, and the checks had not, was a
 *shape*: array concatenation and index-through-pointer in streamed programs, a dirty result buffer
 for the packed-bit OT form (the label form had one), other-curve *values* handed to encoders (the
 decoders got other-curve bytes), 257 connections per pair (at most 4), files that no writer produces
-(a signature nested 1.5 million deep, a type name of a million bytes). Each shape is generated now,
-each fix has its reversal under `mutants/`, and each reversal is caught by the quick tier.
+(a signature nested 1.5 million deep, a type name of a million bytes); in a second round, a
+randomness source whose reads are shorter than a label (the world's short reads were multiples of
+16 bytes on purpose), vector elements outside [0,p), a package of two source files. Each shape is
+generated now, each of the ten fixes has its reversal under `mutants/`, and each reversal is caught
+by the quick tier. Reports that were reproduced but left alone are listed in section 0.
 
 ''' % (ordn[len(waves) - 1].capitalize(), len(rows), len(own), len(missed), len(rows), per_wave, ', '.join(m['name'] for m in notcaught))
 out += '''| change | property | what was changed | needs | clause that fires | missed at first? |
